@@ -7,6 +7,7 @@ Four models carry the statements: the constant codec (Model/Const.lean — `Cons
 instructions — (Model/Compile.lean).  Which function name each generated function struct emits, which of its fields it
 hands to the compiler and in which order is not modelled: the correspondence check runs it and compares.
 -/
+import MechVerif.Gen.CompileMacros
 import MechVerif.Lemmas.Const
 import MechVerif.Lemmas.ConstValue
 import MechVerif.Model.RunProgram
@@ -273,3 +274,53 @@ example : ∀ s ∈ exPlan, s.wf := by
   rcases hs with rfl | rfl | rfl <;> rfl
 
 end MechVerif.Compile
+
+/-! ### the compile macros as they are written
+
+`Gen/CompileMacros.lean` is regenerated from src/core/src/stdlib.rs and src/core/src/program/compiler/context.rs on every
+run (`tools/extract_compile.py`); `C06_compile_macros_as_written_ok` is its `decide` proof. -/
+namespace MechVerif.CompileIR
+open MechVerif.Compile
+
+theorem compileRegs_cons (c : Ctx) (a : Addr) (rest : List Addr) :
+    compileRegs c (a :: rest) =
+      ((compileRegs (compileRegister c a).1 rest).1, (compileRegister c a).2 :: (compileRegs (compileRegister c a).1 rest).2) := rfl
+
+theorem compileRegs_length (l : List Addr) : ∀ c : Ctx, (compileRegs c l).2.length = l.length := by
+  induction l with
+  | nil => intro c; rfl
+  | cons a rest ih => intro c; rw [compileRegs_cons]; simp [ih]
+
+/-- **Every compile macro as written is `compileStep`**: for a step whose argument count fits its class, running the
+    extracted macro — the operands allocated and loaded in the order written, the operation emitted on the registers in
+    the positions written — gives the context `Model/Compile.compileStep` gives.  Hence `C06_registers_by_cell`,
+    `C06_compile_step_shape` and `C06_run_compiled_returns_last_out` hold for the macros as written. -/
+theorem C06_macro_as_written_is_compileStep (c : Ctx) (s : Step) (hwf : s.wf) :
+    runMacro (expectedMacro s.cls) c s = compileStep c s := by
+  obtain ⟨cls, f, out, args⟩ := s
+  have hl := compileRegs_length args (compileRegister c out).1
+  cases cls <;> simp only [Step.wf, OpClass.arity] at hwf
+  case var =>
+    simp only [runMacro, expectedMacro, compileStep, operandAddrs, List.flatMap_cons, List.flatMap_nil, List.append_nil,
+      List.singleton_append, compileRegs_cons, List.drop_one, List.tail_cons, List.getD_cons_zero, if_true]
+  all_goals (
+    rcases args with _ | ⟨a1, _ | ⟨a2, _ | ⟨a3, _ | ⟨a4, _ | ⟨a5, r⟩⟩⟩⟩⟩ <;>
+    simp only [List.length_cons, List.length_nil] at hwf <;>
+    first
+      | omega
+      | rfl)
+
+/-- the macros extracted from the source are the expected ones, class by class -/
+theorem C06_macros_as_written_are_expected :
+    Gen.CompileMacros.macros = [expectedMacro .null, expectedMacro .un, expectedMacro .bin, expectedMacro .tern,
+      expectedMacro .quad, expectedMacro .var] := by
+  have h := Gen.CompileMacros.C06_compile_macros_as_written_ok.1
+  simpa [macrosOk] using h
+
+/-! non-vacuity: a macro that allocates an argument before the output, or hands the sources over in another order, is refused -/
+example : macrosOk [expectedMacro .null, expectedMacro .un, ⟨.bin, [.arg 1, .out, .arg 2], 1, [0, 2], false⟩,
+    expectedMacro .tern, expectedMacro .quad, expectedMacro .var] = false := by decide
+example : macrosOk [expectedMacro .null, expectedMacro .un, ⟨.bin, [.out, .arg 1, .arg 2], 0, [2, 1], false⟩,
+    expectedMacro .tern, expectedMacro .quad, expectedMacro .var] = false := by decide
+
+end MechVerif.CompileIR
